@@ -9,7 +9,7 @@ MANIFEST = dict(
     note=common.BASE_NOTE + 'The model transformers are hand-written from the Go code; their footprint table is tied to the source by the regenerated go/ssa field-effect table (Inst_C08: every struct field known, no unmodelled incoming read, every boundary operation stores every field on every path) and to the behaviour by the history correspondence; statement parser and lexer are abstract (any function of the fields the table lets them read); sync.Pool modelled as handing out any previously put instance or a new one; the currentToken field is justified by a guard lemma (cursor bound checked first), not by the SSA table.',
     design='6/C08')
 
-PFIELDS = ["tokens", "currentPos", "currentToken", "depth", "ctx", "positions", "strict", "dialect"]
+PFIELDS = ["tokens", "currentPos", "currentToken", "depth", "ctx", "cancelErr", "positions", "strict", "dialect"]
 TFIELDS = ["input", "pos", "lineStart", "lineStarts", "line", "keywords", "dialect", "logger", "configured", "loc", "Comments"]
 POP = {"parse": "OParse", "parse_raw_empty": "OParse", "parse_raw_nil": "OParse", "parse_noeof": "OParse", "parsepos": "OParsePos",
        "parsectx": "OParseCtx", "recover": "ORecover", "recoverpos": "ORecoverPos", "apply": "OApply", "reset": "OReset",
@@ -507,7 +507,7 @@ def run(tier):
 def bad_cells():
     """ask Coq which (method, field) cells of the regenerated table are incompatible with the model's footprint table"""
     body = ("From Coq Require Import List String Bool.\nFrom GV Require Import Model.Reuse Gen.FieldFx.\nImport ListNotations.\n"
-            "Definition badp := Eval vm_compute in fx_bad_cells (ptable no_defects) pfield_name pop_methods pguard_r (fun _ _ => false) true parser_fx.\n"
+            "Definition badp := Eval vm_compute in fx_bad_cells (ptable no_defects) pfield_name pop_methods pguard_r pguard_w true parser_fx.\n"
             "Definition badt := Eval vm_compute in fx_bad_cells (ttable no_tdefects) tfield_name top_methods tguard_r tguard_w false tokenizer_fx.\n"
             "Print badp.\nPrint badt.\n")
     ok, out, err = common.coq_cases("c08_badcells", body)
